@@ -67,6 +67,9 @@ func ValueOf(value any) Value { //nolint: gocyclo
 		return &dropWrapper{d: v}
 	case yaml.MapSlice:
 		return mapSliceValue{slice: v}
+	case Range:
+		// a range has no properties: its Go methods are not for templates
+		return wrapperValue{value}
 	case Value:
 		return v
 	}
